@@ -27,6 +27,10 @@ esac
 case " $PROPS " in *" C11 "*)
   /venv/bin/python "$ROOT/harness/translate/py2gallina.py" --target extrapolation 2> >(grep -v conda >&2) || echo "setup: translator rejected the source (coq/Gen/ExtrapolationGen.v is a non-compiling stub)" >&2 ;;
 esac
+# C02 owns coq/Gen/TrapGrid1DGen.v (TrapezoidalGrid1D of sparseSpACE/Grid.py; theorems in Props/C02gen.v)
+case " $PROPS " in *" C02 "*)
+  /venv/bin/python "$ROOT/harness/translate/py2gallina_c02.py" 2> >(grep -v conda >&2) || echo "setup: translator rejected the source (coq/Gen/TrapGrid1DGen.v is a non-compiling stub)" >&2 ;;
+esac
 cd "$ROOT/coq"
 find . -name '*.v' | sed 's|^\./||' | sort > .files.new
 if ! cmp -s .files.new .files || [ ! -f Makefile.coq ]; then
@@ -37,6 +41,7 @@ fi
 TARGETS=""
 for p in $PROPS; do
   [ -f Props/$p.v ] && TARGETS="$TARGETS Props/$p.vo"
+  [ -f Props/${p}gen.v ] && TARGETS="$TARGETS Props/${p}gen.vo"    # theorems about the source-derived model kept in a file of their own
   [ -f Entry/$p.v ] && TARGETS="$TARGETS Entry/$p.vo"
 done
 rc=0
